@@ -450,3 +450,26 @@ ADDENDA4 = {
 }
 for _pid, _add in ADDENDA4.items():
     CHECKS[_pid]["text"] = CHECKS[_pid]["text"].rstrip() + _add
+
+ADDENDA5 = {
+    'C01': " Round 8: contexts of four makes handed to TryLock / LockWithCtx (context.WithCancel, the library's WithCancelError ended with nil or with the caller's error below a live parent, the library's WrapChannel).",
+    'C02': ' Round 8: CAS values that quote the version they replace; ListKeys walking 200000 records as the reader racing a write over a dead record.',
+    'C03': ' Round 8: written values quote earlier version strings; Redis ListKeys over a server that answers SCAN a few keys at a time.',
+    'C04': ' Round 8: the same four makes of contexts (an ErrClosed-class context error is still the context\'s error).',
+    'C05': " Round 8: a store that serves every renewal after 3/16 of a lease period and honours the caller's context.",
+    'C06': ' Round 8: the OverDead scenarios (a dead record read - also by ListKeys over a big store - and overwritten at the same instant).',
+    'C07': " Round 8: a waiter woken by a write within microseconds of its record's expiration, then a waiter on an unchanged record, on one processor.",
+    'C09': ' Round 8: 70-130 callers on one key whose creation fails dozens of times in a row (storm line of LRUConcTrace).',
+    'C10': ' Round 8: values that reach themselves, in a process of its own.',
+    'C11': ' Round 8: a delete callback that leaves Clear by runtime.Goexit or panic(nil).',
+    'C12': ' Round 8: fresh processes whose very first Calls come from sixteen goroutines at once.',
+    'C14': ' Round 8: element types that cannot be compared with == ([]byte, func).',
+    'C15': ' Round 8: pairs of different strings with the same 32-bit hash under eight common hash functions, decoded back to back.',
+    'C16': ' Round 8: inputs in local arrays at 3000 stack depths on fresh goroutines (the result of newBuf=false is the body inside the input, also across a stack move).',
+    'C17': ' Round 8: concurrent stress over a storage with transient faults while three goroutines poll Available.',
+    'C18': ' Round 8: sources given as values of a struct of functions (uncomparable dynamic type).',
+    'C19': ' Round 8: message texts that are the complete status line of another error.',
+    'C20': " Round 8: file names that also occur around the tree (the archive's own name, the directories involved).",
+}
+for _pid, _add in ADDENDA5.items():
+    CHECKS[_pid]["text"] = CHECKS[_pid]["text"].rstrip() + _add
